@@ -15,6 +15,9 @@
 (*             state: along every word, so the rule set preserves the      *)
 (*             language (C01) and the derivative rules compute left        *)
 (*             quotients (C03) in the design                               *)
+(*   Involution complement is an involution without fixed points on every   *)
+(*             reachable term, stays in normal form, flips the nullable    *)
+(*             flag (C07's complement clause, in the design)               *)
 (*   finite    TLC terminates: the derivative closure of every term is     *)
 (*             finite under these normal forms (the design argument behind *)
 (*             "iter_derivatives terminates", C19) - without any help from *)
@@ -32,5 +35,7 @@ NextC == \E c \in Sigma : /\ r' = r /\ l' = l
                           /\ t' = DerivN(t, c)
 Wf     == WfN(t)
 NullOk == NulN(t) = RFinal(TermAt(r), s)
+\* complement is an involution without fixed points on every term the model can reach (C07, in the design)
+Involution == MkNot(MkNot(t)) = t /\ MkNot(t) # t /\ WfN(MkNot(t)) /\ NulN(MkNot(t)) = ~NulN(t)
 Seeds  == TLCGet("stats").distinct >= NT
 =============================================================================
